@@ -74,6 +74,13 @@ def run(ctx):
         if sbeh:
             res = safe_engine(ctx, rpcbin, "TestStorageProofRPC", {"behaviours": sbeh}, "trierpc", guards,
                               env_extra={"CGO_LDFLAGS": "-L" + vlib.BUILD + "/lib"})
+            # concurrency-only misbehaviour is not a verdict for C10 (its quantifier has no "schedules"): observations
+            obs = res.get("stats", {}).get("observations", {}) or {}
+            details = res.get("stats", {}).get("observation_details", {}) or {}
+            for k in sorted(obs):
+                print("OBSERVATION: property=C10 %s (%d occurrences) %s" % (k, obs[k], details.get(k, "")[:400]), flush=True)
+            ctx.coverage["observations"] = obs
+            ctx.coverage.pop("observation_details", None)
             ctx.coverage["rpc_chains"] = res.get("replayed", 0)
             ctx.coverage["rpc_proof_checks"] = res.get("steps", 0)
             guards.require(res.get("replayed", 0) >= 10 or ctx.violations, "RPC storage-proof engine served only %s requests" % res.get("replayed"))
